@@ -98,3 +98,16 @@ Example exS_period_iter_protocol :
   period_iter_protocol_M (iter_periods_M Z (locate_span SpList exA_span) exA_desc exA_span (Some 1) (Some 2))
   = Ret (2%nat, [(1, 1); (2, 2); (1, 1); (2, 2); (1, 1); (2, 2)]).
 Proof. repeat split; vm_compute; reflexivity. Qed.
+
+(* KEPT FINDING (known_findings.d/C05.json): on a pandas IntervalIndex span solve_period(label) / solve(start=label) reject a label that
+   names exactly one period with KeyError (get_loc returns numpy.int64, which is no built-in int); solve() with defaults is unaffected *)
+Lemma interval_index_label_rejected_refuted :
+  exists span lab i,
+    NoDup span /\ nth_error span i = Some lab /\
+    f_solve_period exA_scripts exA_desc (exA_opts ERaise) 5 span [] lab exA_state = (exA_state, Raise KeyError) /\
+    f_solve exA_scripts exA_desc (exA_opts ERaise) 5 span [] (Some lab) None exA_state = (exA_state, Raise KeyError) /\
+    snd (f_solve exA_scripts exA_desc (exA_opts ERaise) 5 span [] None None exA_state)
+    = Ret (mkRes 4%nat [(0, 0, true); (1, 1, true); (2, 2, true); (3, 3, true)]).
+Proof.
+  exists exA_span, 1, 1%nat. split; [exact exA_span_nodup|]. repeat split; vm_compute; reflexivity.
+Qed.
